@@ -34,16 +34,6 @@ impl MemoryFS {
             handle: Arc::new(RwLock::new(MemoryFsImpl::new())),
         }
     }
-
-    fn ensure_has_parent(&self, path: &str) -> VfsResult<()> {
-        let separator = path.rfind('/');
-        if let Some(index) = separator {
-            if self.exists(&path[..index])? {
-                return Ok(());
-            }
-        }
-        Err(VfsErrorKind::Other("Parent path does not exist".into()).into())
-    }
 }
 
 impl Default for MemoryFS {
@@ -196,10 +186,11 @@ impl FileSystem for MemoryFS {
     }
 
     fn create_dir(&self, path: &str) -> VfsResult<()> {
-        self.ensure_has_parent(path)?;
         #[cfg(feature = "verif-hooks")]
         crate::verif_hooks::yield_point("memory::create_dir::write");
         let map = &mut self.handle.write().unwrap().files;
+        // the parent check and the insertion happen under the same lock
+        ensure_parent_directory(map, path)?;
         let entry = map.entry(path.to_string());
         match entry {
             Entry::Occupied(file) => {
@@ -239,11 +230,12 @@ impl FileSystem for MemoryFS {
     }
 
     fn create_file(&self, path: &str) -> VfsResult<Box<dyn SeekAndWrite + Send>> {
-        self.ensure_has_parent(path)?;
         let content = Arc::new(Vec::<u8>::new());
         #[cfg(feature = "verif-hooks")]
         crate::verif_hooks::yield_point("memory::create_file::write");
         let mut handle = self.handle.write().unwrap();
+        // the parent check and the insertion happen under the same lock
+        ensure_parent_directory(&handle.files, path)?;
         if let Some(existing) = handle.files.get(path) {
             if existing.file_type == VfsFileType::Directory {
                 return Err(VfsErrorKind::Other("Path is a directory".into()).into());
@@ -352,16 +344,19 @@ impl FileSystem for MemoryFS {
     }
 
     fn remove_dir(&self, path: &str) -> VfsResult<()> {
-        if self.read_dir(path)?.next().is_some() {
-            return Err(VfsErrorKind::Other("Directory to remove is not empty".into()).into());
-        }
         #[cfg(feature = "verif-hooks")]
         crate::verif_hooks::yield_point("memory::remove_dir::write");
         let mut handle = self.handle.write().unwrap();
-        handle
-            .files
-            .remove(path)
-            .ok_or(VfsErrorKind::FileNotFound)?;
+        // the type check, the emptiness check and the removal happen under the same lock
+        let file = handle.files.get(path).ok_or(VfsErrorKind::FileNotFound)?;
+        if file.file_type != VfsFileType::Directory {
+            return Err(VfsErrorKind::Other("Not a directory".into()).into());
+        }
+        let prefix = format!("{}/", path);
+        if handle.files.keys().any(|key| key.starts_with(&prefix)) {
+            return Err(VfsErrorKind::Other("Directory to remove is not empty".into()).into());
+        }
+        handle.files.remove(path);
         Ok(())
     }
 }
@@ -396,6 +391,18 @@ struct MemoryFile {
     created: SystemTime,
     modified: Option<SystemTime>,
     accessed: Option<SystemTime>,
+}
+
+/// Checks, on the locked map, that the parent of `path` exists and is a directory
+fn ensure_parent_directory(files: &HashMap<String, MemoryFile>, path: &str) -> VfsResult<()> {
+    if let Some(index) = path.rfind('/') {
+        return match files.get(&path[..index]) {
+            Some(parent) if parent.file_type == VfsFileType::Directory => Ok(()),
+            Some(_) => Err(VfsErrorKind::Other("Parent path is not a directory".into()).into()),
+            None => Err(VfsErrorKind::Other("Parent path does not exist".into()).into()),
+        };
+    }
+    Err(VfsErrorKind::Other("Parent path does not exist".into()).into())
 }
 
 fn ensure_file(file: &MemoryFile) -> VfsResult<()> {
